@@ -100,7 +100,12 @@ class ValueIn(Validator):
             self.valid_options = valid_options
 
     def validate(self, element, state):
-        if element.value not in self.valid_options:
+        try:
+            found = element.value in self.valid_options
+        except TypeError:
+            # e.g. a non-text value tested against a text container
+            found = False
+        if not found:
             return self.note_error(element, state, "fail")
         return True
 
